@@ -12,10 +12,14 @@ entry of `hseq.New[S]()` that was reached along value embeddings only has that p
 exactly those lenses, positionally.  The frame and law theorems are then stated for `FocusOn` lenses.
 
 Modelled, not verified: gc layout / reflect (validated by the harness on every run), value
-encodings, GC; `ForProduct1..9`/`ForSpectrum1..9` are the list function `deriveN` (all nine arities
-exercised differentially on every shape).
+encodings, GC.  `ForProduct1..9`/`ForSpectrum1..9` are the list function `deriveN` at each arity:
+`forProductN_gen` / `forSpectrumN_gen` at the end of this file prove that for the definitions regenerated
+from optics/lens.go and optics/reflector.go on every run (all nine arities are also exercised
+differentially on every shape).
 -/
 import Golem.Lemmas.Lens
+import Golem.Lemmas.HseqBind
+import Golem.Gen.HseqArity
 namespace Golem.Props.C01
 open Golem.Model
 
@@ -265,5 +269,126 @@ example : FocusOn exC1 ⟨⟨⟨"Q", false, "", .prim .int64⟩, 8, 24, .prim .i
   unfold FocusOn; decide
 
 example : ¬ ([1, 1, 1, 1] : List Nat) <+: [1, 1, 2] ∧ ¬ ([1, 1, 2] : List Nat) <+: [1, 1, 1, 1] := by decide
+
+
+/-! ### The arity-unrolled Go functions themselves (regenerated from optics/lens.go and reflector.go on every run)
+
+`Golem.Gen.HseqArity.ForProductN` / `ForSpectrumN` are produced by go/xlate (family `hseqarity`) from the
+current source; each equals `forProduct` / `forSpectrum` (the list model all theorems above and in C02 are
+about) at its arity, for every container type, focus types and names. -/
+
+section Generated
+open Golem.Gen.HseqArity
+set_option linter.unusedSimpArgs false
+
+theorem forProduct1_gen (T A : GoType) (attr : List String) :
+    (fun (p : Lens) => [p]) <$> ForProduct1 T A attr = forProduct T [A] attr := by
+  simp only [ForProduct1, New1, FMap1, forProduct, deriveN_bind, newN_bind, List.map, mapE_cons_bind, mapE_nil_pure, fmapN,
+    fmapFrom_cons_bind, fmapFrom_nil_pure, List.length, Nat.zero_add, attrNames_ge2, attrNames_one, map_eq_pure_bind, bind_assoc, pure_bind]
+  split <;> simp only [attrNames_one, bind_assoc, pure_bind]
+
+theorem forProduct2_gen (T A B : GoType) (attr : List String) :
+    (fun (p : Lens × Lens) => [p.1, p.2]) <$> ForProduct2 T A B attr = forProduct T [A, B] attr := by
+  simp only [ForProduct2, New2, FMap2, forProduct, deriveN_bind, newN_bind, List.map, mapE_cons_bind, mapE_nil_pure, fmapN,
+    fmapFrom_cons_bind, fmapFrom_nil_pure, List.length, Nat.zero_add, attrNames_ge2, attrNames_one, map_eq_pure_bind, bind_assoc, pure_bind]
+  split <;> simp only [attrNames_one, bind_assoc, pure_bind]
+
+theorem forProduct3_gen (T A B C : GoType) (attr : List String) :
+    (fun (p : Lens × Lens × Lens) => [p.1, p.2.1, p.2.2]) <$> ForProduct3 T A B C attr = forProduct T [A, B, C] attr := by
+  simp only [ForProduct3, New3, FMap3, forProduct, deriveN_bind, newN_bind, List.map, mapE_cons_bind, mapE_nil_pure, fmapN,
+    fmapFrom_cons_bind, fmapFrom_nil_pure, List.length, Nat.zero_add, attrNames_ge2, attrNames_one, map_eq_pure_bind, bind_assoc, pure_bind]
+  split <;> simp only [attrNames_one, bind_assoc, pure_bind]
+
+theorem forProduct4_gen (T A B C D : GoType) (attr : List String) :
+    (fun (p : Lens × Lens × Lens × Lens) => [p.1, p.2.1, p.2.2.1, p.2.2.2]) <$> ForProduct4 T A B C D attr = forProduct T [A, B, C, D] attr := by
+  simp only [ForProduct4, New4, FMap4, forProduct, deriveN_bind, newN_bind, List.map, mapE_cons_bind, mapE_nil_pure, fmapN,
+    fmapFrom_cons_bind, fmapFrom_nil_pure, List.length, Nat.zero_add, attrNames_ge2, attrNames_one, map_eq_pure_bind, bind_assoc, pure_bind]
+  split <;> simp only [attrNames_one, bind_assoc, pure_bind]
+
+theorem forProduct5_gen (T A B C D E : GoType) (attr : List String) :
+    (fun (p : Lens × Lens × Lens × Lens × Lens) => [p.1, p.2.1, p.2.2.1, p.2.2.2.1, p.2.2.2.2]) <$> ForProduct5 T A B C D E attr = forProduct T [A, B, C, D, E] attr := by
+  simp only [ForProduct5, New5, FMap5, forProduct, deriveN_bind, newN_bind, List.map, mapE_cons_bind, mapE_nil_pure, fmapN,
+    fmapFrom_cons_bind, fmapFrom_nil_pure, List.length, Nat.zero_add, attrNames_ge2, attrNames_one, map_eq_pure_bind, bind_assoc, pure_bind]
+  split <;> simp only [attrNames_one, bind_assoc, pure_bind]
+
+theorem forProduct6_gen (T A B C D E F : GoType) (attr : List String) :
+    (fun (p : Lens × Lens × Lens × Lens × Lens × Lens) => [p.1, p.2.1, p.2.2.1, p.2.2.2.1, p.2.2.2.2.1, p.2.2.2.2.2]) <$> ForProduct6 T A B C D E F attr = forProduct T [A, B, C, D, E, F] attr := by
+  simp only [ForProduct6, New6, FMap6, forProduct, deriveN_bind, newN_bind, List.map, mapE_cons_bind, mapE_nil_pure, fmapN,
+    fmapFrom_cons_bind, fmapFrom_nil_pure, List.length, Nat.zero_add, attrNames_ge2, attrNames_one, map_eq_pure_bind, bind_assoc, pure_bind]
+  split <;> simp only [attrNames_one, bind_assoc, pure_bind]
+
+theorem forProduct7_gen (T A B C D E F G : GoType) (attr : List String) :
+    (fun (p : Lens × Lens × Lens × Lens × Lens × Lens × Lens) => [p.1, p.2.1, p.2.2.1, p.2.2.2.1, p.2.2.2.2.1, p.2.2.2.2.2.1, p.2.2.2.2.2.2]) <$> ForProduct7 T A B C D E F G attr = forProduct T [A, B, C, D, E, F, G] attr := by
+  simp only [ForProduct7, New7, FMap7, forProduct, deriveN_bind, newN_bind, List.map, mapE_cons_bind, mapE_nil_pure, fmapN,
+    fmapFrom_cons_bind, fmapFrom_nil_pure, List.length, Nat.zero_add, attrNames_ge2, attrNames_one, map_eq_pure_bind, bind_assoc, pure_bind]
+  split <;> simp only [attrNames_one, bind_assoc, pure_bind]
+
+theorem forProduct8_gen (T A B C D E F G H : GoType) (attr : List String) :
+    (fun (p : Lens × Lens × Lens × Lens × Lens × Lens × Lens × Lens) => [p.1, p.2.1, p.2.2.1, p.2.2.2.1, p.2.2.2.2.1, p.2.2.2.2.2.1, p.2.2.2.2.2.2.1, p.2.2.2.2.2.2.2]) <$> ForProduct8 T A B C D E F G H attr = forProduct T [A, B, C, D, E, F, G, H] attr := by
+  simp only [ForProduct8, New8, FMap8, forProduct, deriveN_bind, newN_bind, List.map, mapE_cons_bind, mapE_nil_pure, fmapN,
+    fmapFrom_cons_bind, fmapFrom_nil_pure, List.length, Nat.zero_add, attrNames_ge2, attrNames_one, map_eq_pure_bind, bind_assoc, pure_bind]
+  split <;> simp only [attrNames_one, bind_assoc, pure_bind]
+
+theorem forProduct9_gen (T A B C D E F G H I : GoType) (attr : List String) :
+    (fun (p : Lens × Lens × Lens × Lens × Lens × Lens × Lens × Lens × Lens) => [p.1, p.2.1, p.2.2.1, p.2.2.2.1, p.2.2.2.2.1, p.2.2.2.2.2.1, p.2.2.2.2.2.2.1, p.2.2.2.2.2.2.2.1, p.2.2.2.2.2.2.2.2]) <$> ForProduct9 T A B C D E F G H I attr = forProduct T [A, B, C, D, E, F, G, H, I] attr := by
+  simp only [ForProduct9, New9, FMap9, forProduct, deriveN_bind, newN_bind, List.map, mapE_cons_bind, mapE_nil_pure, fmapN,
+    fmapFrom_cons_bind, fmapFrom_nil_pure, List.length, Nat.zero_add, attrNames_ge2, attrNames_one, map_eq_pure_bind, bind_assoc, pure_bind]
+  split <;> simp only [attrNames_one, bind_assoc, pure_bind]
+
+theorem forSpectrum1_gen (T A : GoType) (attr : List String) :
+    (fun (p : Lens) => [p]) <$> ForSpectrum1 T A attr = forSpectrum T [A] attr := by
+  simp only [ForSpectrum1, New1, FMap1, forSpectrum, deriveN_bind, newN_bind, List.map, mapE_cons_bind, mapE_nil_pure, fmapN,
+    fmapFrom_cons_bind, fmapFrom_nil_pure, List.length, Nat.zero_add, attrNames_ge2, attrNames_one, map_eq_pure_bind, bind_assoc, pure_bind]
+  split <;> simp only [attrNames_one, bind_assoc, pure_bind]
+
+theorem forSpectrum2_gen (T A B : GoType) (attr : List String) :
+    (fun (p : Lens × Lens) => [p.1, p.2]) <$> ForSpectrum2 T A B attr = forSpectrum T [A, B] attr := by
+  simp only [ForSpectrum2, New2, FMap2, forSpectrum, deriveN_bind, newN_bind, List.map, mapE_cons_bind, mapE_nil_pure, fmapN,
+    fmapFrom_cons_bind, fmapFrom_nil_pure, List.length, Nat.zero_add, attrNames_ge2, attrNames_one, map_eq_pure_bind, bind_assoc, pure_bind]
+  split <;> simp only [attrNames_one, bind_assoc, pure_bind]
+
+theorem forSpectrum3_gen (T A B C : GoType) (attr : List String) :
+    (fun (p : Lens × Lens × Lens) => [p.1, p.2.1, p.2.2]) <$> ForSpectrum3 T A B C attr = forSpectrum T [A, B, C] attr := by
+  simp only [ForSpectrum3, New3, FMap3, forSpectrum, deriveN_bind, newN_bind, List.map, mapE_cons_bind, mapE_nil_pure, fmapN,
+    fmapFrom_cons_bind, fmapFrom_nil_pure, List.length, Nat.zero_add, attrNames_ge2, attrNames_one, map_eq_pure_bind, bind_assoc, pure_bind]
+  split <;> simp only [attrNames_one, bind_assoc, pure_bind]
+
+theorem forSpectrum4_gen (T A B C D : GoType) (attr : List String) :
+    (fun (p : Lens × Lens × Lens × Lens) => [p.1, p.2.1, p.2.2.1, p.2.2.2]) <$> ForSpectrum4 T A B C D attr = forSpectrum T [A, B, C, D] attr := by
+  simp only [ForSpectrum4, New4, FMap4, forSpectrum, deriveN_bind, newN_bind, List.map, mapE_cons_bind, mapE_nil_pure, fmapN,
+    fmapFrom_cons_bind, fmapFrom_nil_pure, List.length, Nat.zero_add, attrNames_ge2, attrNames_one, map_eq_pure_bind, bind_assoc, pure_bind]
+  split <;> simp only [attrNames_one, bind_assoc, pure_bind]
+
+theorem forSpectrum5_gen (T A B C D E : GoType) (attr : List String) :
+    (fun (p : Lens × Lens × Lens × Lens × Lens) => [p.1, p.2.1, p.2.2.1, p.2.2.2.1, p.2.2.2.2]) <$> ForSpectrum5 T A B C D E attr = forSpectrum T [A, B, C, D, E] attr := by
+  simp only [ForSpectrum5, New5, FMap5, forSpectrum, deriveN_bind, newN_bind, List.map, mapE_cons_bind, mapE_nil_pure, fmapN,
+    fmapFrom_cons_bind, fmapFrom_nil_pure, List.length, Nat.zero_add, attrNames_ge2, attrNames_one, map_eq_pure_bind, bind_assoc, pure_bind]
+  split <;> simp only [attrNames_one, bind_assoc, pure_bind]
+
+theorem forSpectrum6_gen (T A B C D E F : GoType) (attr : List String) :
+    (fun (p : Lens × Lens × Lens × Lens × Lens × Lens) => [p.1, p.2.1, p.2.2.1, p.2.2.2.1, p.2.2.2.2.1, p.2.2.2.2.2]) <$> ForSpectrum6 T A B C D E F attr = forSpectrum T [A, B, C, D, E, F] attr := by
+  simp only [ForSpectrum6, New6, FMap6, forSpectrum, deriveN_bind, newN_bind, List.map, mapE_cons_bind, mapE_nil_pure, fmapN,
+    fmapFrom_cons_bind, fmapFrom_nil_pure, List.length, Nat.zero_add, attrNames_ge2, attrNames_one, map_eq_pure_bind, bind_assoc, pure_bind]
+  split <;> simp only [attrNames_one, bind_assoc, pure_bind]
+
+theorem forSpectrum7_gen (T A B C D E F G : GoType) (attr : List String) :
+    (fun (p : Lens × Lens × Lens × Lens × Lens × Lens × Lens) => [p.1, p.2.1, p.2.2.1, p.2.2.2.1, p.2.2.2.2.1, p.2.2.2.2.2.1, p.2.2.2.2.2.2]) <$> ForSpectrum7 T A B C D E F G attr = forSpectrum T [A, B, C, D, E, F, G] attr := by
+  simp only [ForSpectrum7, New7, FMap7, forSpectrum, deriveN_bind, newN_bind, List.map, mapE_cons_bind, mapE_nil_pure, fmapN,
+    fmapFrom_cons_bind, fmapFrom_nil_pure, List.length, Nat.zero_add, attrNames_ge2, attrNames_one, map_eq_pure_bind, bind_assoc, pure_bind]
+  split <;> simp only [attrNames_one, bind_assoc, pure_bind]
+
+theorem forSpectrum8_gen (T A B C D E F G H : GoType) (attr : List String) :
+    (fun (p : Lens × Lens × Lens × Lens × Lens × Lens × Lens × Lens) => [p.1, p.2.1, p.2.2.1, p.2.2.2.1, p.2.2.2.2.1, p.2.2.2.2.2.1, p.2.2.2.2.2.2.1, p.2.2.2.2.2.2.2]) <$> ForSpectrum8 T A B C D E F G H attr = forSpectrum T [A, B, C, D, E, F, G, H] attr := by
+  simp only [ForSpectrum8, New8, FMap8, forSpectrum, deriveN_bind, newN_bind, List.map, mapE_cons_bind, mapE_nil_pure, fmapN,
+    fmapFrom_cons_bind, fmapFrom_nil_pure, List.length, Nat.zero_add, attrNames_ge2, attrNames_one, map_eq_pure_bind, bind_assoc, pure_bind]
+  split <;> simp only [attrNames_one, bind_assoc, pure_bind]
+
+theorem forSpectrum9_gen (T A B C D E F G H I : GoType) (attr : List String) :
+    (fun (p : Lens × Lens × Lens × Lens × Lens × Lens × Lens × Lens × Lens) => [p.1, p.2.1, p.2.2.1, p.2.2.2.1, p.2.2.2.2.1, p.2.2.2.2.2.1, p.2.2.2.2.2.2.1, p.2.2.2.2.2.2.2.1, p.2.2.2.2.2.2.2.2]) <$> ForSpectrum9 T A B C D E F G H I attr = forSpectrum T [A, B, C, D, E, F, G, H, I] attr := by
+  simp only [ForSpectrum9, New9, FMap9, forSpectrum, deriveN_bind, newN_bind, List.map, mapE_cons_bind, mapE_nil_pure, fmapN,
+    fmapFrom_cons_bind, fmapFrom_nil_pure, List.length, Nat.zero_add, attrNames_ge2, attrNames_one, map_eq_pure_bind, bind_assoc, pure_bind]
+  split <;> simp only [attrNames_one, bind_assoc, pure_bind]
+
+end Generated
 
 end Golem.Props.C01
